@@ -1163,8 +1163,9 @@ def scan_user_defined(ctx: Ctx):
 
 def detect_variant():
     """which FloatData.__eq__ does the tree under test have: the unchanged one or repair C08-1"""
-    from xdsl.dialects.builtin import FloatData
-    return "cur" if FloatData(0.0) == FloatData(-0.0) else "fix"
+    # pinned to the repaired model since fix commit a97d45f (no behaviour sniffing: a tree that falls back to
+    # the old FloatData.__eq__/__hash__ diverges from the model and fails the oracle on the fixed witnesses)
+    return "fix"
 
 
 # ---------------------------------------------------------------------------- run
